@@ -329,6 +329,15 @@ def check(facts, chk, rule):
             used.add((_owner(b.name), expr))
             chk.ok(rule, key, t.span, 'data invariant (confirmed by reading): %s' % inv, nontrivial=False)
             continue
+        # the function was renamed: an entry recorded for a function that no longer exists, in the same module, for the same expression
+        mod = _owner(b.name).rsplit('::', 1)[0]
+        orphan = next(((o, e, v) for (o, e), v in INVARIANTS.items() if o not in facts.by_name and o.rsplit('::', 1)[0] == mod
+                       and _skeleton(e) == _skeleton(expr)), None)
+        if orphan is not None:
+            used.add((orphan[0], orphan[1]))
+            chk.ok(rule, key, t.span, 'data invariant (confirmed by reading; recorded under the former name %s, which no longer exists in %s): %s'
+                   % (orphan[0].rsplit('::', 1)[1], mod, orphan[2]), nontrivial=False)
+            continue
         moved = _via_callers(facts, b, le, re_)
         if moved is not None:
             chk.ok(rule, key, t.span, 'the subtraction sits in a helper; at every call site, with the actual arguments substituted, it is an obligation already discharged '
